@@ -65,9 +65,9 @@ def u32(n):
 def gen_cases(tier, seed):
     rng = random.Random(f'c10-{seed}')
     cases = []
-    nraw = 260 if tier == 'quick' else 8000
-    npeer = 420 if tier == 'quick' else 12000
-    npar = 60 if tier == 'quick' else 1500
+    nraw = 260 if tier == 'quick' else 20000
+    npeer = 420 if tier == 'quick' else 30000
+    npar = 60 if tier == 'quick' else 4000
 
     for _ in range(nraw):
         cases.append({'kind': 'raw', 'role': rng.choice(['server', 'client']),
